@@ -57,6 +57,10 @@ mod sys {
         )) {
             None
         } else {
+            #[cfg(jiff_verif)]
+            if let Some(now) = crate::__verif::monotonic_override() {
+                return Some(now);
+            }
             Some(std::time::Instant::now())
         }
     }
